@@ -9,14 +9,24 @@ import Cellml.C08.Lemmas
 
 namespace Model
 
-/-- no derivative and nothing opaque left -/
-def Expr.plain : Expr → Bool
-  | .num _ => true
-  | .var _ => true
-  | .deriv _ _ => false
-  | .bin _ a b => a.plain && b.plain
-  | .pow a _ => a.plain
-  | .opq _ => false
+mutual
+  /-- no derivative left (not in the argument places of an opaque term either) -/
+  def Expr.plain : Expr → Bool
+    | .num _ => true
+    | .var _ => true
+    | .deriv _ _ => false
+    | .bin _ a b => a.plain && b.plain
+    | .pow a _ => a.plain
+    | .opq _ args => Expr.plainL args
+  def Expr.plainL : List Expr → Bool
+    | [] => true
+    | a :: as => a.plain && Expr.plainL as
+end
+
+theorem Expr.plainL_iff (l : List Expr) : Expr.plainL l = true ↔ ∀ a ∈ l, a.plain = true := by
+  induction l with
+  | nil => simp [Expr.plainL]
+  | cons a as ih => simp [Expr.plainL, ih]
 
 /-- The definitions are ranked: every reference of a right-hand side ranks below the left-hand side (so there is no
     cycle); `Occ` holds of everything that occurs on a right-hand side; `m` is a second measure that decreases with
@@ -28,7 +38,7 @@ structure Ranked (M : RModel) (rank : Node → Nat) (Occ : Node → Prop) (m : N
   mDer : ∀ s t s' t', Occ (.deriv s t) → rank (.deriv s t) < rank (.deriv s' t') → m (.deriv s t) < m (.deriv s' t')
 
 section
-variable {M : RModel} {rank : Node → Nat} {Occ : Node → Prop} {m : Node → Nat}
+variable {fn : Interp} {M : RModel} {rank : Node → Nat} {Occ : Node → Prop} {m : Node → Nat}
 
 /-- where a variable of the expanded expression comes from -/
 def VarBound (rank : Node → Nat) (Occ : Node → Prop) (e : Expr) (d : Nat) : Prop :=
@@ -41,18 +51,71 @@ theorem VarBound.mono {e e' : Expr} {d : Nat} (h : VarBound rank Occ e d) (hsub 
   · exact .inr ⟨s, t, hsub _ h1, h2⟩
 
 /-- what a correct expansion of `e` looks like -/
-def GoodX (M : RModel) (rank : Node → Nat) (Occ : Node → Prop) (e : Expr) : Except VErr Expr → Prop
-  | .ok e' => e'.plain = true ∧ (∀ q, Den M (.e e) q ↔ Den M (.e e') q) ∧ ∀ d ∈ e'.vars, VarBound rank Occ e d
-  | .error err => err ≠ .fuel ∧ ∀ q, ¬ Den M (.e e) q
+def GoodX (fn : Interp) (M : RModel) (rank : Node → Nat) (Occ : Node → Prop) (e : Expr) : Except VErr Expr → Prop
+  | .ok e' => e'.plain = true ∧ (∀ q, Den fn M (.e e) q ↔ Den fn M (.e e') q) ∧ ∀ d ∈ e'.vars, VarBound rank Occ e d
+  | .error err => err ≠ .fuel ∧ ∀ q, ¬ Den fn M (.e e) q
+
+/-- … of a list of argument places -/
+def GoodXL (fn : Interp) (M : RModel) (rank : Node → Nat) (Occ : Node → Prop) (es : List Expr) :
+    Except VErr (List Expr) → Prop
+  | .ok es' => Expr.plainL es' = true ∧ (∀ qs, Dens fn M es qs ↔ Dens fn M es' qs) ∧
+      ∀ a' ∈ es', ∀ d ∈ a'.vars, ∃ a ∈ es, VarBound rank Occ a d
+  | .error err => err ≠ .fuel ∧ ∀ qs, ¬ Dens fn M es qs
 
 theorem vars_bin (op : BinOp) (a b : Expr) : (Expr.bin op a b).vars = a.vars ++ b.vars := by
   simp [Expr.vars, Expr.nodes, List.flatMap_append]
 
-theorem vars_pow (a : Expr) (n : Int) : (Expr.pow a n).vars = a.vars := rfl
+theorem vars_pow (a : Expr) (n : Int) : (Expr.pow a n).vars = a.vars := by
+  simp [Expr.vars, Expr.nodes]
+
+theorem nodes_opq (id : String) (args : List Expr) : (Expr.opq id args).nodes = args.flatMap Expr.nodes := by
+  simp [Expr.nodes, Expr.nodesL_eq]
+
+theorem mem_nodes_opq {id : String} {args : List Expr} {n : Node} :
+    n ∈ (Expr.opq id args).nodes ↔ ∃ a ∈ args, n ∈ a.nodes := by
+  rw [nodes_opq, List.mem_flatMap]
+
+theorem mem_vars_opq {id : String} {args : List Expr} {d : Nat} :
+    d ∈ (Expr.opq id args).vars ↔ ∃ a ∈ args, d ∈ a.vars := by
+  simp only [Expr.vars, nodes_opq, List.mem_flatMap]
+  constructor
+  · rintro ⟨n, ⟨a, ha, hn⟩, hd⟩; exact ⟨a, ha, n, hn, hd⟩
+  · rintro ⟨a, ha, n, hn, hd⟩; exact ⟨n, ⟨a, ha, hn⟩, hd⟩
+
+theorem bindDL_good (g : Nat → Nat → Except VErr Expr) : ∀ (es : List Expr),
+    (∀ a ∈ es, GoodX fn M rank Occ a (a.bindD g)) → GoodXL fn M rank Occ es (Expr.bindDL g es)
+  | [], _ => ⟨rfl, fun _ => Iff.rfl, fun a' ha' => by cases ha'⟩
+  | a :: as, h => by
+    have iha := h a (List.mem_cons_self ..)
+    have ihs := bindDL_good g as (fun x hx => h x (List.mem_cons_of_mem _ hx))
+    simp only [Expr.bindDL]
+    rcases ha : a.bindD g with ea | a'
+    · rw [ha] at iha
+      exact ⟨iha.1, fun qs hq => by
+        obtain ⟨p, _, _, hp, _⟩ := dens_cons_iff.mp hq
+        exact iha.2 p hp⟩
+    · rw [ha] at iha
+      rcases hs : Expr.bindDL g as with es | as'
+      · rw [hs] at ihs
+        exact ⟨ihs.1, fun qs hq => by
+          obtain ⟨_, ps, _, _, hps⟩ := dens_cons_iff.mp hq
+          exact ihs.2 ps hps⟩
+      · rw [hs] at ihs
+        obtain ⟨pa, da, va⟩ := iha
+        obtain ⟨ps, ds, vs⟩ := ihs
+        refine ⟨by simp [Expr.plainL, pa, ps], fun qs => ?_, fun x hx d hd => ?_⟩
+        · rw [dens_cons_iff, dens_cons_iff]
+          constructor
+          · rintro ⟨p, ps', h0, h1, h2⟩; exact ⟨p, ps', h0, (da p).mp h1, (ds ps').mp h2⟩
+          · rintro ⟨p, ps', h0, h1, h2⟩; exact ⟨p, ps', h0, (da p).mpr h1, (ds ps').mpr h2⟩
+        · rcases List.mem_cons.mp hx with rfl | hx
+          · exact ⟨a, List.mem_cons_self .., va d hd⟩
+          · obtain ⟨y, hy, hb⟩ := vs x hx d hd
+            exact ⟨y, List.mem_cons_of_mem _ hy, hb⟩
 
 theorem bindD_good (g : Nat → Nat → Except VErr Expr) (e : Expr)
-    (hg : ∀ s t, .deriv s t ∈ e.nodes → GoodX M rank Occ (.deriv s t) (g s t)) :
-    GoodX M rank Occ e (e.bindD g) := by
+    (hg : ∀ s t, .deriv s t ∈ e.nodes → GoodX fn M rank Occ (.deriv s t) (g s t)) :
+    GoodX fn M rank Occ e (e.bindD g) := by
   induction e with
   | num q => exact ⟨rfl, fun _ => Iff.rfl, fun d hd => by simp [Expr.vars, Expr.nodes] at hd⟩
   | var v =>
@@ -60,7 +123,25 @@ theorem bindD_good (g : Nat → Nat → Except VErr Expr) (e : Expr)
     simp [Expr.vars, Expr.nodes, Node.atoms] at hd
     subst hd; exact .inl (by simp [Expr.nodes])
   | deriv s t => exact hg s t (by simp [Expr.nodes])
-  | opq l => exact ⟨by decide, not_den_opq l⟩
+  | opq id args ih =>
+    have ihs := bindDL_good (fn := fn) (M := M) (rank := rank) (Occ := Occ) g args
+      (fun a ha => ih a ha (fun s t h => hg s t (mem_nodes_opq.mpr ⟨a, ha, h⟩)))
+    simp only [Expr.bindD]
+    rcases hs : Expr.bindDL g args with es | args'
+    · rw [hs] at ihs
+      exact ⟨ihs.1, fun q h => by
+        obtain ⟨vals, hv, _⟩ := den_opq_iff.mp h
+        exact ihs.2 vals hv⟩
+    · rw [hs] at ihs
+      obtain ⟨ps, ds, vs⟩ := ihs
+      refine ⟨by simpa [Expr.plain] using ps, fun q => ?_, fun d hd => ?_⟩
+      · rw [den_opq_iff, den_opq_iff]
+        constructor
+        · rintro ⟨vals, h1, h2⟩; exact ⟨vals, (ds vals).mp h1, h2⟩
+        · rintro ⟨vals, h1, h2⟩; exact ⟨vals, (ds vals).mpr h1, h2⟩
+      · obtain ⟨a', ha', hd'⟩ := mem_vars_opq.mp hd
+        obtain ⟨a, ha, hb⟩ := vs a' ha' d hd'
+        exact hb.mono (fun n hn => mem_nodes_opq.mpr ⟨a, ha, hn⟩)
   | bin op a b iha ihb =>
     have iha := iha (fun s t h => hg s t (by simp [Expr.nodes]; exact .inl h))
     have ihb := ihb (fun s t h => hg s t (by simp [Expr.nodes]; exact .inr h))
@@ -108,7 +189,7 @@ theorem bindD_good (g : Nat → Nat → Except VErr Expr) (e : Expr)
 
 /-- `expand` with fuel above the measure of every derivative it meets is a correct expansion -/
 theorem expand_good (R : Ranked M rank Occ m) : ∀ (F : Nat) (e : Expr),
-    (∀ s t, .deriv s t ∈ e.nodes → m (.deriv s t) < F ∧ Occ (.deriv s t)) → GoodX M rank Occ e (expand M F e)
+    (∀ s t, .deriv s t ∈ e.nodes → m (.deriv s t) < F ∧ Occ (.deriv s t)) → GoodX fn M rank Occ e (expand M F e)
   | 0, e, h => by
     simp only [expand]
     exact bindD_good _ e (fun s t hst => absurd (h s t hst).1 (Nat.not_lt_zero _))
@@ -137,7 +218,7 @@ theorem expand_good (R : Ranked M rank Occ m) : ∀ (F : Nat) (e : Expr),
 
 -- ------------------------------------------------------------------------------------------------ the memo
 /-- every entry of the `evaluated` dictionary is the value its variable denotes -/
-def MemoOK (M : RModel) (memo : Memo) : Prop := ∀ d q, memo.lookup d = some q → Den M (.v d) q
+def MemoOK (fn : Interp) (M : RModel) (memo : Memo) : Prop := ∀ d q, memo.lookup d = some q → Den fn M (.v d) q
 
 theorem beq_ne {a b : Nat} (h : a ≠ b) : (a == b) = false := by simp [h]
 
@@ -216,8 +297,8 @@ theorem lookup_of_hasKey (l : Memo) (k : Nat) (h : hasKey k l = true) : ∃ q, l
       obtain ⟨q, hq⟩ := ih h'
       exact ⟨q, by simp only [List.lookup, beq_ne hk]; exact hq⟩
 
-theorem MemoOK.insert {memo : Memo} (h : MemoOK M memo) {d : Nat} {q : Rat} (hd : Den M (.v d) q) :
-    MemoOK M (insertKey d q memo) := by
+theorem MemoOK.insert {memo : Memo} (h : MemoOK fn M memo) {d : Nat} {q : Rat} (hd : Den fn M (.v d) q) :
+    MemoOK fn M (insertKey d q memo) := by
   intro k p hk
   rw [lookup_insertKey] at hk
   by_cases hkd : k = d
@@ -226,49 +307,104 @@ theorem MemoOK.insert {memo : Memo} (h : MemoOK M memo) {d : Nat} {q : Rat} (hd 
 
 -- ------------------------------------------------------------------------------------------------ evalE
 /-- a plain expression can only denote something if each of its variables does -/
-theorem den_needs_vars : ∀ (e : Expr), e.plain = true → ∀ q, Den M (.e e) q → ∀ d ∈ e.vars, ∃ q', Den M (.v d) q'
-  | .num _, _, _, _, d, hd => by simp [Expr.vars, Expr.nodes] at hd
-  | .var v, _, q, h, d, hd => by
+theorem den_needs_vars (e : Expr) : e.plain = true → ∀ q, Den fn M (.e e) q → ∀ d ∈ e.vars, ∃ q', Den fn M (.v d) q' := by
+  induction e with
+  | num _ => intro _ _ _ d hd; simp [Expr.vars, Expr.nodes] at hd
+  | var v =>
+    intro _ q h d hd
     simp [Expr.vars, Expr.nodes, Node.atoms] at hd
     subst hd; exact ⟨q, den_var_iff.mp h⟩
-  | .deriv _ _, hp, _, _, _, _ => by simp [Expr.plain] at hp
-  | .opq _, hp, _, _, _, _ => by simp [Expr.plain] at hp
-  | .bin op a b, hp, q, h, d, hd => by
+  | deriv _ _ => intro hp; simp [Expr.plain] at hp
+  | opq id args ih =>
+    intro hp q h d hd
+    have hp' := (Expr.plainL_iff args).mp (by simpa [Expr.plain] using hp)
+    obtain ⟨vals, hv, _⟩ := den_opq_iff.mp h
+    obtain ⟨a, ha, hda⟩ := mem_vars_opq.mp hd
+    obtain ⟨p, hpa⟩ := hv.mem ha
+    exact ih a ha (hp' a ha) p hpa d hda
+  | bin op a b iha ihb =>
+    intro hp q h d hd
     simp only [Expr.plain, Bool.and_eq_true] at hp
     obtain ⟨p, q', h1, h2, _⟩ := den_bin_iff.mp h
     rw [vars_bin, List.mem_append] at hd
     rcases hd with hd | hd
-    · exact den_needs_vars a hp.1 p h1 d hd
-    · exact den_needs_vars b hp.2 q' h2 d hd
-  | .pow a n, hp, q, h, d, hd => by
+    · exact iha hp.1 p h1 d hd
+    · exact ihb hp.2 q' h2 d hd
+  | pow a n iha =>
+    intro hp q h d hd
     obtain ⟨p, h1, _⟩ := den_pow_iff.mp h
-    exact den_needs_vars a (by simpa [Expr.plain] using hp) p h1 d (by simpa [vars_pow] using hd)
+    exact iha (by simpa [Expr.plain] using hp) p h1 d (by simpa [vars_pow] using hd)
 
-def GoodE (M : RModel) (e : Expr) : Except VErr Rat → Prop
-  | .ok q => Den M (.e e) q
-  | .error err => err ≠ .fuel ∧ ∀ q, ¬ Den M (.e e) q
+def GoodE (fn : Interp) (M : RModel) (e : Expr) : Except VErr Rat → Prop
+  | .ok q => Den fn M (.e e) q
+  | .error err => err ≠ .fuel ∧ ∀ q, ¬ Den fn M (.e e) q
 
-theorem evalE_good {memo : Memo} (hm : MemoOK M memo) : ∀ (e : Expr), e.plain = true →
-    (∀ d ∈ e.vars, hasKey d memo = true) → GoodE M e (evalE memo e)
-  | .num q, _, _ => Den.num q
-  | .var v, _, hk => by
+def GoodEL (fn : Interp) (M : RModel) (es : List Expr) : Except VErr (List Rat) → Prop
+  | .ok qs => Dens fn M es qs
+  | .error err => err ≠ .fuel ∧ ∀ qs, ¬ Dens fn M es qs
+
+theorem evalEL_good {memo : Memo} : ∀ (es : List Expr), (∀ a ∈ es, GoodE fn M a (evalE fn memo a)) →
+    GoodEL fn M es (evalEL fn memo es)
+  | [], _ => Dens.nil
+  | a :: as, h => by
+    have iha := h a (List.mem_cons_self ..)
+    have ihs := evalEL_good as (fun x hx => h x (List.mem_cons_of_mem _ hx))
+    simp only [evalEL]
+    rcases ha : evalE fn memo a with ea | p
+    · rw [ha] at iha
+      exact And.intro iha.1 (fun qs hq => by
+        obtain ⟨p, _, _, hp, _⟩ := dens_cons_iff.mp hq
+        exact iha.2 p hp)
+    · rw [ha] at iha
+      rcases hs : evalEL fn memo as with es | ps
+      · rw [hs] at ihs
+        exact And.intro ihs.1 (fun qs hq => by
+          obtain ⟨_, ps, _, _, hps⟩ := dens_cons_iff.mp hq
+          exact ihs.2 ps hps)
+      · rw [hs] at ihs
+        exact Dens.cons iha ihs
+
+theorem evalE_good {memo : Memo} (hm : MemoOK fn M memo) (e : Expr) : e.plain = true →
+    (∀ d ∈ e.vars, hasKey d memo = true) → GoodE fn M e (evalE fn memo e) := by
+  induction e with
+  | num q => intro _ _; exact Den.num q
+  | var v =>
+    intro _ hk
     obtain ⟨q, hq⟩ := lookup_of_hasKey memo v (hk v (by simp [Expr.vars, Expr.nodes, Node.atoms]))
     simp only [evalE, hq]
     exact Den.var (hm v q hq)
-  | .deriv _ _, hp, _ => by simp [Expr.plain] at hp
-  | .opq _, hp, _ => by simp [Expr.plain] at hp
-  | .bin op a b, hp, hk => by
-    simp only [Expr.plain, Bool.and_eq_true] at hp
-    have iha := evalE_good hm a hp.1 (fun d hd => hk d (by rw [vars_bin]; exact List.mem_append_left _ hd))
-    have ihb := evalE_good hm b hp.2 (fun d hd => hk d (by rw [vars_bin]; exact List.mem_append_right _ hd))
+  | deriv _ _ => intro hp; simp [Expr.plain] at hp
+  | opq id args ih =>
+    intro hp hk
+    have hp' := (Expr.plainL_iff args).mp (by simpa [Expr.plain] using hp)
+    have ihs := evalEL_good (fn := fn) (M := M) (memo := memo) args
+      (fun a ha => ih a ha (hp' a ha) (fun d hd => hk d (mem_vars_opq.mpr ⟨a, ha, hd⟩)))
     simp only [evalE]
-    rcases ha : evalE memo a with ea | p
+    rcases hs : evalEL fn memo args with es | vals
+    · rw [hs] at ihs
+      exact And.intro ihs.1 (fun q h => by
+        obtain ⟨vals, hv, _⟩ := den_opq_iff.mp h
+        exact ihs.2 vals hv)
+    · rw [hs] at ihs
+      dsimp only
+      rcases hf : fn id vals with _ | r
+      · refine And.intro (by decide) (fun r h => ?_)
+        obtain ⟨vals', hv, hf'⟩ := den_opq_iff.mp h
+        rw [dens_unique hv ihs, hf] at hf'; cases hf'
+      · exact den_opq_iff.mpr ⟨vals, ihs, hf⟩
+  | bin op a b iha ihb =>
+    intro hp hk
+    simp only [Expr.plain, Bool.and_eq_true] at hp
+    have iha := iha hp.1 (fun d hd => hk d (by rw [vars_bin]; exact List.mem_append_left _ hd))
+    have ihb := ihb hp.2 (fun d hd => hk d (by rw [vars_bin]; exact List.mem_append_right _ hd))
+    simp only [evalE]
+    rcases ha : evalE fn memo a with ea | p
     · rw [ha] at iha
       exact And.intro iha.1 (fun q h => by
         obtain ⟨p, _, hp', _, _⟩ := den_bin_iff.mp h
         exact iha.2 p hp')
     · rw [ha] at iha
-      rcases hb : evalE memo b with eb | q
+      rcases hb : evalE fn memo b with eb | q
       · rw [hb] at ihb
         exact And.intro ihb.1 (fun r h => by
           obtain ⟨_, q', _, hq', _⟩ := den_bin_iff.mp h
@@ -282,10 +418,11 @@ theorem evalE_good {memo : Memo} (hm : MemoOK M memo) : ∀ (e : Expr), e.plain 
           have := den_unique h2 ihb; subst this
           rw [hab] at h3; cases h3
         · exact Den.bin iha ihb hab
-  | .pow a n, hp, hk => by
-    have iha := evalE_good hm a (by simpa [Expr.plain] using hp) (fun d hd => hk d (by simpa [vars_pow] using hd))
+  | pow a n iha =>
+    intro hp hk
+    have iha := iha (by simpa [Expr.plain] using hp) (fun d hd => hk d (by simpa [vars_pow] using hd))
     simp only [evalE]
-    rcases ha : evalE memo a with ea | p
+    rcases ha : evalE fn memo a with ea | p
     · rw [ha] at iha
       exact And.intro iha.1 (fun q h => by
         obtain ⟨p, hp', _⟩ := den_pow_iff.mp h
@@ -300,17 +437,17 @@ theorem evalE_good {memo : Memo} (hm : MemoOK M memo) : ∀ (e : Expr), e.plain 
       · exact Den.pow iha hpw
 
 -- ------------------------------------------------------------------------------------------------ evalDeps / getValueAux
-def GoodV (M : RModel) (d : Nat) (memo : Memo) : Except VErr (Rat × Memo) → Prop
-  | .ok (q, memo') => Den M (.v d) q ∧ MemoOK M memo' ∧ ∀ k, hasKey k memo = true → hasKey k memo' = true
-  | .error err => err ≠ .fuel ∧ ∀ q, ¬ Den M (.v d) q
+def GoodV (fn : Interp) (M : RModel) (d : Nat) (memo : Memo) : Except VErr (Rat × Memo) → Prop
+  | .ok (q, memo') => Den fn M (.v d) q ∧ MemoOK fn M memo' ∧ ∀ k, hasKey k memo = true → hasKey k memo' = true
+  | .error err => err ≠ .fuel ∧ ∀ q, ¬ Den fn M (.v d) q
 
-def GoodDeps (M : RModel) (ds : List Nat) (memo : Memo) : Except VErr Memo → Prop
-  | .ok memo' => MemoOK M memo' ∧ (∀ k, hasKey k memo = true → hasKey k memo' = true) ∧ ∀ d ∈ ds, hasKey d memo' = true
-  | .error err => err ≠ .fuel ∧ ∃ d ∈ ds, ∀ q, ¬ Den M (.v d) q
+def GoodDeps (fn : Interp) (M : RModel) (ds : List Nat) (memo : Memo) : Except VErr Memo → Prop
+  | .ok memo' => MemoOK fn M memo' ∧ (∀ k, hasKey k memo = true → hasKey k memo' = true) ∧ ∀ d ∈ ds, hasKey d memo' = true
+  | .error err => err ≠ .fuel ∧ ∃ d ∈ ds, ∀ q, ¬ Den fn M (.v d) q
 
 theorem evalDeps_good (rec : Nat → Memo → Except VErr (Rat × Memo)) (P : Nat → Prop)
-    (hrec : ∀ d memo, MemoOK M memo → P d → GoodV M d memo (rec d memo)) :
-    ∀ (ds : List Nat) (memo : Memo), MemoOK M memo → (∀ d ∈ ds, P d) → GoodDeps M ds memo (evalDeps rec ds memo)
+    (hrec : ∀ d memo, MemoOK fn M memo → P d → GoodV fn M d memo (rec d memo)) :
+    ∀ (ds : List Nat) (memo : Memo), MemoOK fn M memo → (∀ d ∈ ds, P d) → GoodDeps fn M ds memo (evalDeps rec ds memo)
   | [], memo, hm, _ => by
     simp only [evalDeps]
     exact ⟨hm, fun _ h => h, fun d hd => by cases hd⟩
@@ -353,7 +490,7 @@ theorem evalDeps_good (rec : Nat → Memo → Except VErr (Rat × Memo)) (P : Na
           · exact h3 x hx
 
 theorem not_den_of_no_rhs {v : Nat} (hs : isState M v = false) {r : Expr} (hr : varRhs M v = some r)
-    (hn : ∀ q, ¬ Den M (.e r) q) (q : Rat) : ¬ Den M (.v v) q := by
+    (hn : ∀ q, ¬ Den fn M (.e r) q) (q : Rat) : ¬ Den fn M (.v v) q := by
   intro h
   cases h with
   | state hs' _ => rw [hs] at hs'; cases hs'
@@ -364,8 +501,8 @@ theorem not_den_of_no_rhs {v : Nat} (hs : isState M v = false) {r : Expr} (hr : 
     expansion fuel above the measure of every derivative that occurs) `_get_value` returns the value the variable
     denotes and leaves a correct dictionary — or it raises something that is not `RecursionError`, and then the
     variable denotes nothing. -/
-theorem getValueAux_good (R : Ranked M rank Occ m) (F : Nat) (hF : ∀ s t, Occ (.deriv s t) → m (.deriv s t) < F) :
-    ∀ (f v : Nat) (memo : Memo), MemoOK M memo → m (.var v) < f → GoodV M v memo (getValueAux M F f v memo)
+theorem getValueAux_good (fn : Interp) (R : Ranked M rank Occ m) (F : Nat) (hF : ∀ s t, Occ (.deriv s t) → m (.deriv s t) < F) :
+    ∀ (f v : Nat) (memo : Memo), MemoOK fn M memo → m (.var v) < f → GoodV fn M v memo (getValueAux fn M F f v memo)
   | 0, _, _, _, h => absurd h (Nat.not_lt_zero _)
   | f + 1, v, memo, hm, hv => by
     simp only [getValueAux]
@@ -391,7 +528,7 @@ theorem getValueAux_good (R : Ranked M rank Occ m) (F : Nat) (hF : ∀ s t, Occ 
           | defn _ hr' _ => rw [hr] at hr'; cases hr'
           | free _ _ hf => exact hfv hf
       · dsimp only
-        have hx := expand_good R F r (fun s t hst => by
+        have hx := expand_good (fn := fn) R F r (fun s t hst => by
           have := (R.varDec v r hr _ hst).2
           exact ⟨hF s t this, this⟩)
         rcases hex : expand M F r with err | r'
@@ -400,8 +537,8 @@ theorem getValueAux_good (R : Ranked M rank Occ m) (F : Nat) (hF : ∀ s t, Occ 
         · rw [hex] at hx
           obtain ⟨hplain, hden, hvars⟩ := hx
           dsimp only
-          have hdeps := evalDeps_good (getValueAux M F f) (fun d => m (.var d) < f)
-            (fun d memo' hm' hd => getValueAux_good R F hF f d memo' hm' hd) r'.vars memo hm (fun d hd => by
+          have hdeps := evalDeps_good (getValueAux fn M F f) (fun d => m (.var d) < f)
+            (fun d memo' hm' hd => getValueAux_good fn R F hF f d memo' hm' hd) r'.vars memo hm (fun d hd => by
               show m (.var d) < f
               rcases hvars d hd with h1 | ⟨s, t, h1, h2, h3⟩
               · have := R.varDec v r hr _ h1
@@ -410,7 +547,7 @@ theorem getValueAux_good (R : Ranked M rank Occ m) (F : Nat) (hF : ∀ s t, Occ 
               · have := R.varDec v r hr _ h1
                 have := R.mVar d v h3 (by omega)
                 omega)
-          rcases hdp : evalDeps (getValueAux M F f) r'.vars memo with err | memo'
+          rcases hdp : evalDeps (getValueAux fn M F f) r'.vars memo with err | memo'
           · rw [hdp] at hdeps
             obtain ⟨h1, d, hd, h2⟩ := hdeps
             refine And.intro h1 (not_den_of_no_rhs hs hr (fun q hq => ?_))
@@ -420,7 +557,7 @@ theorem getValueAux_good (R : Ranked M rank Occ m) (F : Nat) (hF : ∀ s t, Occ 
             obtain ⟨hm', hmono, hkeys⟩ := hdeps
             dsimp only
             have he := evalE_good hm' r' hplain hkeys
-            rcases hev : evalE memo' r' with err | q
+            rcases hev : evalE fn memo' r' with err | q
             · rw [hev] at he
               exact And.intro he.1 (not_den_of_no_rhs hs hr (fun q hq => he.2 q ((hden q).mp hq)))
             · rw [hev] at he
